@@ -78,7 +78,7 @@ EXT = {
  "C07": "Unknown enumeration values judged by in-order evaluation (LazyQuery; eager validation stays accepted); is-not-defined combined with text-matches; a card with a repeated property.",
  "C08": "Conformant spellings the own client never emits (calendar-data without comp, negate-condition=no, collation), documents beyond 64 KiB (3 000 hrefs, 100 000-character text), sub-second instants, a multiget without paths used for two collections in a row.",
  "C09": "Conformant spellings the own client never emits (negate-condition=no, collation), documents beyond 64 KiB, carriage returns in match texts, a multiget without paths used twice, more non-numeric limits.",
- "C10": "Absent tag / time values, empty component set, absent404 layouts, wrapped backend errors, a 150-href multiget, PUT by relative name. Plus store histories: a TLA+ state machine of the object store (Store: put / get / del / mget / query / cols / mkcol; TLC checks TagsFresh, WellFormed, Pure, ReadYourWrite, QuerySound, NewTag on a bounded instance), TLC-simulated histories of 24-120 calls performed by two long-lived real clients against one long-lived real CalDAV and CardDAV handler over a stateful backend, every answer judged against the state the MODEL reached (StoreJudge).",
+ "C10": "Absent tag / time values, empty component set, absent404 layouts, wrapped backend errors, a 150-href multiget, PUT by relative name. Plus store histories: a TLA+ state machine of the object store (Store: put / get / del / mget / query / cols / mkcol; TLC checks TagsFresh, WellFormed, Pure, ReadYourWrite, QuerySound, NewTag on a bounded instance), TLC-simulated histories of 24-120 calls performed by two long-lived real clients against one long-lived real CalDAV and CardDAV handler over a stateful backend, every answer judged against the state the MODEL reached (StoreJudge). And synchronisation histories: RFC 6578 state machine (Sync: server store + change log, client token + replica; TLC checks Converged, Snapshot, Monotone, CatchUp), simulated histories of server-side changes and SyncCollection calls (limits, truncation) against an independent responder, the request on the wire (token, level, limit), the answer and the caller's replica judged by SyncJudge.",
  "C11": "Lower bound MustHave of properties per resource kind (incl. a zero-length file); the same local name in two namespaces.",
  "C12": "A second user (request context) on the same handler in every discovery chain.",
  "C13": "Graft mutants, byte-edit universe over rich valid documents (single edits exhaustive, pairs seeded), PROPPATCH mutants, the documents CalWire / CardWire classify as outside the RFC, malformed conditional headers, object type with unparsable parameters.",
@@ -131,7 +131,7 @@ m = {
   {"name": "hier", "path": "spec/Hier.tla spec/HierGen.tla spec/HierJudge.tla harness/cmd/hierrec harness/backends lib/checks_hier.py",
    "serves_properties": ["C11", "C12"],
    "kind_free_text": "hierarchy / routing / scope / accounting rules as TLA+ operators; TLC enumerates requests; real handlers with recording backends and real clients; TLC judge"},
-  {"name": "davwire", "path": "spec/DavWire.tla spec/DavWireGen.tla spec/C14Judge.tla spec/C10Gen.tla spec/C10Judge.tla spec/StoreOps.tla spec/Store.tla spec/StoreJudge.tla lib/checks_store.py spec/C05Gen.tla spec/C05Judge.tla harness/cmd/clirec harness/cmd/clihist lib/checks_davwire.py lib/checks_c10.py lib/checks_c05.py lib/checks_clihist.py",
+  {"name": "davwire", "path": "spec/DavWire.tla spec/DavWireGen.tla spec/C14Judge.tla spec/C10Gen.tla spec/C10Judge.tla spec/StoreOps.tla spec/Store.tla spec/StoreJudge.tla spec/SyncOps.tla spec/Sync.tla spec/SyncJudge.tla lib/checks_store.py spec/C05Gen.tla spec/C05Judge.tla harness/cmd/clirec harness/cmd/clihist lib/checks_davwire.py lib/checks_c10.py lib/checks_c05.py lib/checks_clihist.py",
    "serves_properties": ["C05", "C10", "C14"],
    "kind_free_text": "client-side relations in TLA+; TLC enumerates cases and judges observations of the real clients against backend doubles, scripted transports and independent-writer documents"},
   {"name": "xmlprims", "path": "spec/Xml.tla spec/XmlGen.tla spec/XmlJudge.tla spec/Prims.tla spec/PrimsJudge.tla harness/overlay lib/checks_xml.py",
